@@ -59,3 +59,6 @@ def extract_struct_priv(unit, src, name, derive=None, kind="struct"):
         f.replace_span(0, 0, "pub ", "R4", "visibility widening")
     unit.emit(f, prefix=(derive + "\n") if derive else "")
     return f
+
+# inserted at the start of every function body that compares strings (assumed str order axioms, see std_specs.rs)
+STR_ORD = "broadcast use axiom_str_cmp;\n        proof { axiom_str_obeys(); }\n"
